@@ -373,6 +373,41 @@ def _run_sampling(item, ctx, seed):
                 ctx.fail("leaf-probabilities-sum-to-one", case, observed=mass, expected=1.0)
             elif exact:
                 ctx.add("complete_answer_trees_with_leaf_mass_1")
+        # the same source with unsigned 8-bit scores (differences of neighbours wrap there): every sample is internally
+        # ordered and consistent with counting on its own arrays, its group matrices sum to its matrix
+        src_u8 = GroupScores(pos=np.array([int(s * 2) for s, _ in pos_in], dtype=np.uint8), neg=np.array([int(s * 2) for s, _ in neg_in], dtype=np.uint8),
+                             pos_groups=[l for _, l in pos_in], neg_groups=[l for _, l in neg_in], score_class=cfg[0], equal_class=cfg[1],
+                             group_names=names)
+        Tu = np.array(sorted({float(int(s * 2)) + d for s, p, l in data for d in (-0.5, 0.0, 0.5)}))
+        for method, strat in [("single_pass", None), ("replacement", "by_group")] + ([("single_pass", "by_group")] if all_both else []):
+            if strat == "by_group" and any(not any(True for s, p, l in data if l == gname) for gname in names):
+                continue
+            cfgobj = BootstrapConfig(sampling_method=method, stratified_sampling=strat)
+            case = {"pos": pos_in, "neg": neg_in, "dtype": "uint8 (scores x 2)", "cfg": list(cfg), "method": method, "stratified": strat, "group_names": names}
+            ctx.state()
+            try:
+                for orc, smp in rngtree.explore(lambda o: src_u8.bootstrap_sample(cfgobj), observe=lambda m: (np.asarray(m.pos).tobytes(), np.asarray(m.neg).tobytes()), twice=False):
+                    ctx.tick()
+                    ctx.nontrivial()
+                    c2 = dict(case, answers=orc.choices)
+                    sp, sn = np.asarray(smp.pos, dtype=float), np.asarray(smp.neg, dtype=float)
+                    if np.any(np.diff(sp) < 0) or np.any(np.diff(sn) < 0):
+                        ctx.fail("sample-internally-ordered", c2, observed=[sp, sn], expected="ascending")
+                        break
+                    gcm, cm = smp.group_cm(Tu).matrix, smp.cm(Tu).matrix
+                    if not np.array_equal(gcm.sum(axis=0), cm):
+                        ctx.fail("sample-group-cms-sum-to-cm", c2, observed=gcm.sum(axis=0), expected=cm)
+                        break
+                    want = np.array([refs.ref_cm(sp.tolist(), sn.tolist(), t, cfg[0], cfg[1]) for t in Tu.tolist()])
+                    if not np.array_equal(cm, want):
+                        ctx.fail("sample-metrics-equal-direct-counting", c2, observed=cm, expected=want)
+                        break
+            except rngtree.UnownedRNG as e:
+                raise HarnessError(str(e))
+            except ZeroDivisionError:
+                if strat == "by_group":
+                    continue
+                raise
         # unsupported modes raise
         for bad in (BootstrapConfig(sampling_method="proportion", ratio=0.5), BootstrapConfig(smoothing=True),
                     BootstrapConfig(sampling_method="replacement", stratified_sampling="by_nothing")):
